@@ -353,6 +353,79 @@ fn permuted(f: &Findings, rng: &mut Rng, shuffle_files: bool) -> Findings {
     g
 }
 
+/// One findings map through the real renderer: a "render" record, and a "same" record from k further renderings of the
+/// same bag of findings built in other insertion / file orders.
+fn run_case(ci: usize, cat: &str, f: &Findings, k: usize, reader: &Reader, rng: &mut Rng, trace: &mut NdjsonWriter, out: &mut Outcome) {
+    out.evaluations += 1;
+    let nfiles: usize = f.iter().map(|x| x.1.len()).sum();
+    if f.len() >= 2 && nfiles > f.len() {
+        out.nontrivial += 1;
+    }
+    let first = match render(cat, f) {
+        Ok(t) => t,
+        Err(m) => {
+            out.violate(&format!("render-panic:{}", cat), format!("generate_{}_report panicked: {}", cat, m), json!({"cat": cat, "findings": findings_json(f)}));
+            return;
+        }
+    };
+    let items = reader.parse_whole_part(cat, &first);
+    trace.push(&json!({"k": "render", "cat": cat, "findings": findings_json(f), "items": items, "text_len": first.len()}));
+    if ci % 977 == 5 {
+        out.sample(json!({"cat": cat, "findings": findings_json(f), "items": items}));
+    }
+    // determinism: same bag, other insertion orders and file orders
+    let mut differing: Option<(Findings, String)> = None;
+    for r in 0..k {
+        let g = permuted(f, rng, r % 2 == 1);
+        match render(cat, &g) {
+            Ok(t) => {
+                if t != first && differing.is_none() {
+                    differing = Some((g, t));
+                }
+            }
+            Err(_) => {}
+        }
+    }
+    let other = match &differing {
+        Some((_, t)) => reader.parse_whole_part(cat, t),
+        None => items.clone(),
+    };
+    trace.push(&json!({"k": "same", "cat": cat, "findings": findings_json(f), "a": items, "b": other,
+                       "bytes_equal": differing.is_none(), "renderings": k + 1}));
+    if let Some((g, t)) = differing {
+        let what = if f.len() >= 2 && items.iter().filter(|i| i["t"] == "Section").map(|i| i["p"].clone()).collect::<Vec<_>>()
+            != other.iter().filter(|i| i["t"] == "Section").map(|i| i["p"].clone()).collect::<Vec<_>>() { "section-order" } else { "entry-order" };
+        out.violate(
+            &format!("nondeterministic:{}:{}", cat, what),
+            format!("two renderings of the same findings of category {} differ ({})", cat, what),
+            json!({"cat": cat, "findings_a": findings_json(f), "findings_b": findings_json(&g), "report_a": first, "report_b": t}),
+        );
+    }
+}
+
+/// Replay of one recorded report case: the findings map is rendered again by the real code (k + 1 times).
+pub fn replay_case(case: &Value, k: usize, trace: &mut NdjsonWriter, out: &mut Outcome) {
+    let rec = if case.get("trace_record").is_some() { &case["trace_record"] } else { case };
+    let cat = rec["cat"].as_str().unwrap_or("optimizations").to_string();
+    let fj = if rec.get("findings").is_some() { &rec["findings"] } else { &rec["findings_a"] };
+    let mut f: Findings = vec![];
+    if let Some(obj) = fj.as_object() {
+        for (p, files) in obj {
+            let fs: Vec<(String, Vec<i32>)> = files
+                .as_array()
+                .cloned()
+                .unwrap_or_default()
+                .iter()
+                .map(|e| (e[0].as_str().unwrap_or("").to_string(), as_i64s(&e[1]).iter().map(|x| *x as i32).collect()))
+                .collect();
+            f.push((p.clone(), fs));
+        }
+    }
+    let reader = Reader::load(out);
+    let mut rng = Rng::from_env(11);
+    run_case(0, &cat, &f, k, &reader, &mut rng, trace, out);
+}
+
 /// C11/C12: render every map with the real code, tokenise, record for TV_Report.
 /// C13: render k times with different insertion orders / file orders; all renderings must be byte-identical.
 pub fn replay(behaviours: &str, k: usize, random_maps: usize, trace: &mut NdjsonWriter, out: &mut Outcome) {
@@ -403,51 +476,7 @@ pub fn replay(behaviours: &str, k: usize, random_maps: usize, trace: &mut Ndjson
     }
 
     for (ci, (cat, f)) in cases.iter().enumerate() {
-        out.evaluations += 1;
-        let nfiles: usize = f.iter().map(|x| x.1.len()).sum();
-        if f.len() >= 2 && nfiles > f.len() {
-            out.nontrivial += 1;
-        }
-        let first = match render(cat, f) {
-            Ok(t) => t,
-            Err(m) => {
-                out.violate(&format!("render-panic:{}", cat), format!("generate_{}_report panicked: {}", cat, m), json!({"cat": cat, "findings": findings_json(f)}));
-                continue;
-            }
-        };
-        let items = reader.parse_whole_part(cat, &first);
-        trace.push(&json!({"k": "render", "cat": cat, "findings": findings_json(f), "items": items, "text_len": first.len()}));
-        if ci % 977 == 5 {
-            out.sample(json!({"cat": cat, "findings": findings_json(f), "items": items}));
-        }
-        // determinism: same bag, other insertion orders and file orders
-        let mut differing: Option<(Findings, String)> = None;
-        for r in 0..k {
-            let g = permuted(f, &mut rng, r % 2 == 1);
-            match render(cat, &g) {
-                Ok(t) => {
-                    if t != first && differing.is_none() {
-                        differing = Some((g, t));
-                    }
-                }
-                Err(_) => {}
-            }
-        }
-        let other = match &differing {
-            Some((_, t)) => reader.parse_whole_part(cat, t),
-            None => items.clone(),
-        };
-        trace.push(&json!({"k": "same", "cat": cat, "findings": findings_json(f), "a": items, "b": other,
-                           "bytes_equal": differing.is_none(), "renderings": k + 1}));
-        if let Some((g, t)) = differing {
-            let what = if f.len() >= 2 && items.iter().filter(|i| i["t"] == "Section").map(|i| i["p"].clone()).collect::<Vec<_>>()
-                != other.iter().filter(|i| i["t"] == "Section").map(|i| i["p"].clone()).collect::<Vec<_>>() { "section-order" } else { "entry-order" };
-            out.violate(
-                &format!("nondeterministic:{}:{}", cat, what),
-                format!("two renderings of the same findings of category {} differ ({})", cat, what),
-                json!({"cat": cat, "findings_a": findings_json(f), "findings_b": findings_json(&g), "report_a": first, "report_b": t}),
-            );
-        }
+        run_case(ci, cat, f, k, &reader, &mut rng, trace, out);
     }
     // end to end: generate_report writes solstat_report.md into the current directory
     let scratch = std::env::var("VERIF_SCRATCH").unwrap_or_default();
